@@ -5,6 +5,7 @@ mod geo;
 mod util;
 mod sc_nested;
 mod sc_ring;
+mod sc_proj;
 mod sc_zoc;
 
 use std::io::BufRead;
@@ -25,6 +26,7 @@ fn main() {
         "C02" => sc_nested::record_c02(&mut rng, count, &mut out),
         "C04" => sc_nested::record_c04(&mut rng, count, &mut out),
         "C14" => sc_nested::record_c14(&mut rng, count, &mut out),
+        "C17" => sc_proj::record_c17(&mut rng, count, &mut out),
         "C18" => sc_zoc::record_c18(&mut rng, count, &mut out),
         "C10" => sc_ring::record_c10(&mut rng, count, &mut out),
         "C11" => sc_ring::record_c11(&mut rng, count, &mut out),
@@ -46,6 +48,7 @@ fn main() {
           "C01" => sc_nested::replay_c01(&v, &mut out, &mut stats),
           "C04" => sc_nested::replay_c04(&v, &mut out, &mut stats),
           "C14" => sc_nested::replay_c14(&v, &mut out, &mut stats),
+          "C17" => sc_proj::replay_c17(&v, &mut out, &mut stats),
           "C18" => sc_zoc::replay_c18(&v, &mut out, &mut stats),
           "C10" => sc_ring::replay_c10(&v, &mut out, &mut stats),
           "C11" => sc_ring::replay_c11(&v, &mut out, &mut stats),
